@@ -193,7 +193,7 @@ class DualQuaternion:
             real = left.real * right.real
             dual = left.real * right.dual + left.dual * right.real
 
-            if isinstance(left, UnitDualQuaternion) and isinstance(left, UnitDualQuaternion):
+            if isinstance(left, UnitDualQuaternion) and isinstance(right, UnitDualQuaternion):
                 return UnitDualQuaternion(real, dual)
             else:
                 return DualQuaternion(real, dual)
@@ -201,6 +201,8 @@ class DualQuaternion:
             v = base.getvector(right, 3)
             vp = left * DualQuaternion.Pure(v) * left.conj()
             return vp.dual.v
+        else:
+            raise ValueError('bad operands')
 
     def matrix(self):
         """
